@@ -10,10 +10,11 @@
 (***************************************************************************)
 EXTENDS Find, Json, Randomization
 
-CONSTANTS CellNames, PatNames, MaxCopies, MaxDecoys, MaxAtoms, AnchorSet, DecoySet, DecoyRots, Emit, NegativeControl, ShiftSet,
+CONSTANTS CellNames, PatNames, MaxCopies, MaxDecoys, MaxAtoms, AnchorSet, DecoySet, DecoyRots, DecoyKinds, Emit, NegativeControl, ShiftSet,
           Sim   \* TRUE only under -simulate: every step draws a few random candidates instead of enumerating all
 
 \* anchors: interior, the three faces, three edges, the corner, and the far corner (-1 = last lattice plane)
+AnchB == {<<8,8,7>>, <<0,9,2>>, <<-1,-1,-1>>}
 AnchQ == {<<2,2,2>>, <<0,2,2>>, <<2,0,2>>, <<2,2,0>>, <<0,0,2>>, <<2,0,0>>, <<0,0,0>>, <<-1,-1,-1>>}
 AnchT == AnchQ \cup {<<0,2,0>>, <<-1,2,2>>, <<2,-1,2>>, <<2,2,-1>>, <<-1,-1,2>>, <<-1,0,0>>, <<1,3,1>>, <<3,1,4>>}
 DecoyQ == {<<1,0,0>>, <<0,-1,0>>, <<0,0,1>>, <<1,1,0>>, <<-1,0,1>>, <<0,2,0>>}
@@ -38,6 +39,8 @@ Pat(p) ==
     [] p = "P4tet" -> <<At("C",0,0,0), At("H",1,0,0), At("H",0,1,0), At("H",0,0,1)>>
     [] p = "P4chi" -> <<At("C",0,0,0), At("N",2,0,0), At("O",0,1,0), At("F",0,0,1)>>
     [] p = "P4sam" -> <<At("C",0,0,0), At("C",2,0,0), At("C",0,1,0), At("C",1,1,2)>>
+    [] p = "P4ax"  -> <<At("C",0,0,0), At("N",3,0,0), At("O",1,1,0), At("F",1,0,1)>>    \* chiral, longest axis along x
+    [] p = "P4flat" -> <<At("C",0,0,0), At("N",5,0,-1), At("O",0,5,-1), At("F",1,1,0)>>  \* shallow chirality
     [] p = "P5"    -> <<At("C",0,0,0), At("N",2,0,0), At("O",0,1,0), At("H",0,0,1), At("H",1,1,1)>>
 
 Cell(c) ==
@@ -46,6 +49,8 @@ Cell(c) ==
     [] c = "tri"    -> <<<<6,0,0>>, <<2,6,0>>, <<1,2,6>>>>
     [] c = "trineg" -> <<<<6,0,0>>, <<-2,6,0>>, <<1,-2,6>>>>
     [] c = "skew"   -> <<<<7,0,0>>, <<3,6,0>>, <<-3,3,6>>>>
+    [] c = "big"    -> <<<<10,0,0>>, <<0,11,0>>, <<0,0,9>>>>
+    [] c = "bigtri" -> <<<<10,0,0>>, <<-3,11,0>>, <<2,-4,9>>>>
     [] c = "narrow" -> <<<<2,0,0>>, <<0,6,0>>, <<0,0,6>>>>      \* violates the width precondition for patterns of diameter >= 2
 
 Chiral(P) == \E i, j, k, l \in 1..Len(P) :
@@ -88,18 +93,18 @@ Plant == /\ ncopies < MaxCopies /\ ndecoys = 0
               /\ planted' = planted \cup {{Len(atoms) + i : i \in 1..Len(P)}}
          /\ ncopies' = ncopies + 1 /\ UNCHANGED ndecoys
 
-PlantMirror == /\ ndecoys < MaxDecoys /\ Chiral(P)
+PlantMirror == /\ ndecoys < MaxDecoys /\ Chiral(P) /\ "mirror" \in DecoyKinds
                /\ \E M \in {MirrorOf(R) : R \in Pick(DecoyRots, 2)}, v \in Anchors(cell) : PlantWith(M, v, P, "PlantMirror")
                /\ ndecoys' = ndecoys + 1 /\ UNCHANGED <<ncopies, planted>>
 
 \* a copy with its last atom displaced by one lattice unit
-NearMiss == /\ ndecoys < MaxDecoys /\ Len(P) >= 2
+NearMiss == /\ ndecoys < MaxDecoys /\ Len(P) >= 2 /\ "near" \in DecoyKinds
             /\ \E M \in Pick(DecoyRots, 2), v \in Anchors(cell), d \in {<<1,0,0>>, <<0,-1,0>>, <<0,0,1>>} :
                  PlantWith(M, v, [P EXCEPT ![Len(P)].pos = VAdd3(@, d)], "NearMiss")
             /\ ndecoys' = ndecoys + 1 /\ UNCHANGED <<ncopies, planted>>
 
 \* a same-element distractor next to something
-AddAtom == /\ ndecoys < MaxDecoys /\ Len(atoms) < MaxAtoms /\ Len(atoms) > 0
+AddAtom == /\ ndecoys < MaxDecoys /\ Len(atoms) < MaxAtoms /\ Len(atoms) > 0 /\ "atom" \in DecoyKinds
            /\ \E e \in {P[i].el : i \in 1..Len(P)}, v \in Pick(DecoySet, 3) :
                 LET pos == Wrap(Cell(cell), VAdd3(atoms[1].pos, v))
                 IN /\ Free(pos)
